@@ -256,7 +256,7 @@ pub fn oracle(c: &Case) -> CaseResult {
         }
         if src & 2 != 0 {
             prof.insert(path.clone(), format!("v_prof_{i}"));
-            if c.profile_file_exists {
+            if c.profile_file_exists || split != 0 {
                 v = Some(format!("v_prof_{i}"));
             }
         }
@@ -499,7 +499,9 @@ pub fn oracle(c: &Case) -> CaseResult {
     }
     // ---- required key
     let must = expected.get(&vec!["must".to_string()]);
+    let must_undecided = either.iter().any(|k| k[0] == "must");
     match (must, typed.get("Ok"), typed.get("Err")) {
+        _ if must_undecided => info.lab("typed:not-judged(split layout)"),
         (Some(v), Some(got), _) => {
             if got.as_str() != Some(v.as_str()) {
                 return Err(Fail::new("typed-value", format!("typed load returned {got}, expected {v}\n{}", describe())));
@@ -541,7 +543,7 @@ pub fn oracle(c: &Case) -> CaseResult {
     if c.explicit_profile && px_profile.is_some() {
         info.lab("explicit-profile-and-PX_PROFILE-both-set");
     }
-    if !c.profile_file_exists {
+    if !c.profile_file_exists && split == 0 {
         info.lab("profile-file-missing(classified)");
     }
     Ok(info)
